@@ -47,7 +47,7 @@ def correspondence(ck, binpath, n):
     if rc != 0:
         ck.tie_broken("harness c21 corr failed", err[-2000:])
         return
-    cases = [json.loads(l) for l in out.splitlines() if l.strip()]
+    cases = [json.loads(l) for l in jlines(out) if l.strip()]
     terms, owner = [], []
     for i, c in enumerate(cases):
         if "panic" in c:
@@ -86,7 +86,7 @@ def search(ck, binpath, n):
     if rc != 0:
         ck.tie_broken("harness c21 search failed", err[-2000:])
         return
-    for l in out.splitlines():
+    for l in jlines(out):
         if not l.strip():
             continue
         v = json.loads(l)
@@ -105,7 +105,7 @@ def replay(ck, binpath, path):
         if t is None:
             continue
         rc, out, err = ck.run_bin(binpath, ["one", "--text-json", json.dumps(t)])
-        for l in out.splitlines():
+        for l in jlines(out):
             if l.strip():
                 vv = json.loads(l)
                 ck.violation(vv["signature"], "%s [config %s] on text %r" % (vv["what"], vv["config"], vv["text"]), {"text": vv["text"], "config": vv["config"], "what": vv["what"]})
